@@ -27,6 +27,11 @@ CHECKS = {
          "Every SAFE edition of the 33 SAFE/FAST pairs, the tag/hash/header verification entry points and the symmetric primitives are single-stepped for enumerated secret variants per public length; all PC traces of one public class must coincide (the irregular FAST(memEq) must be flagged: sensor self-test). Address independence is not part of the statement and not checked.",
          "Trusted: PTRACE_SINGLESTEP as the sensor of executed branches, TLC, the secret-variant classes of harness/drv_ct.c; x86-64 objects produced by gcc -O2 (thorough: also -O3 and clang -O2).",
          "DESIGN.md section 4, C14"),
+ "C19": ("translation_validation",
+         "re-execution of the replay suites in every build configuration; TLC judges every distinct answer with the TLA+ reference semantics and checks with spec/mon/Configs.tla that all configurations answered every case identically",
+         "The enumerated cases of the functional checks (belt record/FMT/generated cases/fragment scripts/overlap placements, plus the suites of the other drivers) are executed by harnesses built per configuration: {64,32}-bit words x {SAFE,FAST} x {-O0..-O3} x {NDEBUG on,off} x bash-f platform (quick: 6 configurations toggling each axis once; thorough: the product the CPU supports). The right value is pinned by the specification, not merely a common one.",
+         "Trusted: TLC, the reference semantics, gcc/clang as used; 32-bit words via the guarded BEE2_VERIF_W32 hook on a 64-bit host (no 32-bit libc).",
+         "DESIGN.md section 4, C19"),
  "C20": ("model_checking",
          "TLC exhaustive model checking of sm/BtokPwd.tla rules on the transition table extracted from btokPwdTransition; counterexample replay; trace validation of random walks (trace/Trace_Pwd.tla)",
          "Exhaustive: all 16x4 states x 9 events of the real function are extracted, TLC checks rules R1..R8 on that graph from every initial PIN state (complete finite space), every counterexample is re-executed on the real function, and recorded random walks are validated step by step.",
